@@ -285,6 +285,19 @@ impl<'a> Model<'a> {
                                 self.throw(Thrown::Typed(k, *id as i64), line, "HostThrow")
                             }
                             FaultKind::BadVal => match shape {
+                                TickShape::GenAdd => {
+                                    // raised by the Add right after the generator's first yield
+                                    let gay_line = self.printed.gay_line;
+                                    let mut a = self.throw(
+                                        Thrown::Runtime(ERR_ADD.into()),
+                                        gay_line,
+                                        "BadVal:AddAfterYield",
+                                    );
+                                    if let Abrupt::Throw(t) = &mut a {
+                                        t.crossed_opaque = true;
+                                    }
+                                    a
+                                }
                                 TickShape::Add => {
                                     self.throw(Thrown::Runtime(ERR_ADD.into()), line, "BadVal:Add")
                                 }
@@ -363,6 +376,21 @@ impl<'a> Model<'a> {
             Conduit::OpLess | Conduit::OpEqInList => {
                 let r = self.invoke(func, a, line, c.conduit)?;
                 Ok(big(r) as i64)
+            }
+            Conduit::OpGe => {
+                // `a >= b` is derived as `not (a < b)`
+                let less = big(self.invoke(func, a, line, c.conduit)?);
+                Ok(!less as i64)
+            }
+            Conduit::OpLe | Conduit::OpGt => {
+                // derived from `@<` (here: f(other) < -100000) and then `@==` (f(other + 1) > …)
+                let less = self.invoke(func, a, line, c.conduit)? < -100_000;
+                let le = less || big(self.invoke(func, a.wrapping_add(1), line, c.conduit)?);
+                Ok(if c.conduit == Conduit::OpLe { le } else { !le } as i64)
+            }
+            Conduit::OpNe => {
+                let eq = big(self.invoke(func, a, line, c.conduit)?);
+                Ok(!eq as i64)
             }
             Conduit::Display => {
                 let r = self.invoke(func, 0, line, c.conduit)?;
@@ -543,6 +571,26 @@ impl<'a> Model<'a> {
             Stmt::Expr(e) => {
                 self.eval(e, f)?;
             }
+            Stmt::AssignLambdaCall(v, func, arg, site) => {
+                let a = self.eval(arg, f)?;
+                let stmt_line = self.printed.call_line[*site as usize];
+                let inner_line = self.printed.lambda_call_line.get(site).copied().unwrap_or(0);
+                self.conduit_stack.push(Conduit::Plain);
+                let r = self.invoke(*func, a, inner_line, Conduit::Plain);
+                self.conduit_stack.pop();
+                match r {
+                    Ok(x) => f.i[*v as usize] = x,
+                    Err(Abrupt::Throw(mut t)) => {
+                        if !t.crossed_opaque {
+                            // function literal -> C_APPLY -> the statement
+                            t.call_lines.push(self.printed.apply_line);
+                            t.call_lines.push(stmt_line);
+                        }
+                        return Err(Abrupt::Throw(t));
+                    }
+                    Err(other) => return Err(other),
+                }
+            }
         }
         Ok(())
     }
@@ -557,6 +605,10 @@ impl<'a> Model<'a> {
     }
 
     fn exec_try(&mut self, t: &Try, f: &mut Frame) -> Exec<()> {
+        if let (Some(pre), Some(_)) = (&t.tuple_prefix, t.result) {
+            // the first element of the tuple is evaluated before the try expression
+            self.eval(pre, f)?;
+        }
         let mut r = self.exec_block(&t.body, f);
         if let Err(Abrupt::Throw(info)) = &r {
             let th = info.thrown.clone();
